@@ -55,6 +55,19 @@ fn fwht_4(data: &mut [GfElement; GF_ORDER], offset: u16, dist: u16) {
 }
 
 // ======================================================================
+// FWHT - verification builds
+
+#[cfg(feature = "verif-hooks")]
+pub(crate) fn verif_fwht_2(a: GfElement, b: GfElement) -> (GfElement, GfElement) {
+    fwht_2(a, b)
+}
+
+#[cfg(feature = "verif-hooks")]
+pub(crate) fn verif_fwht_4(data: &mut [GfElement; GF_ORDER], offset: u16, dist: u16) {
+    fwht_4(data, offset, dist);
+}
+
+// ======================================================================
 // FWHT - TESTS
 
 #[cfg(test)]
